@@ -156,7 +156,9 @@ class InterestTreeNode:
         remaining = []
         for entry in self.pending_list:
             if bytes(entry.implicit_sha256) == bytes(implicit_sha256):
-                entry.future.set_exception(types.InterestNack(nack_reason))
+                # The future is already cancelled if the caller cancelled the Interest and has not run yet
+                if not entry.future.done():
+                    entry.future.set_exception(types.InterestNack(nack_reason))
             else:
                 remaining.append(entry)
         self.pending_list = remaining
